@@ -66,6 +66,7 @@ fn main() {
             }
             0
         }
+        Some("freerun") => freerun(args.get(2).and_then(|s| s.parse().ok()).unwrap_or(10)),
         Some("replay") => vx_core::check::replay_main(args.get(2).expect("replay file")),
         _ => {
             eprintln!("usage: vx-sched check <ID> <quick|thorough> | replay <file> | worker");
@@ -73,4 +74,69 @@ fn main() {
         }
     };
     std::process::exit(code);
+}
+
+/// C01's wall-clock clause, observed (not enumerated): with the library's own background thread
+/// running at the given report interval and nobody calling flush(), every finished span shows up
+/// within a generous multiple of the interval. Prints one JSON object.
+fn freerun(interval_ms: u64) -> i32 {
+    use fastrace::collector::Config;
+    use fastrace::collector::Reporter;
+    use fastrace::prelude::*;
+    use std::sync::atomic::AtomicU64;
+    use std::sync::atomic::Ordering;
+    use std::sync::Arc;
+    use std::time::Duration;
+    use std::time::Instant;
+    struct Count(Arc<AtomicU64>, Arc<AtomicU64>);
+    impl Reporter for Count {
+        fn report(&mut self, spans: Vec<SpanRecord>) {
+            self.0.fetch_add(spans.len() as u64, Ordering::SeqCst);
+            self.1.fetch_add(1, Ordering::SeqCst);
+        }
+    }
+    let n = Arc::new(AtomicU64::new(0));
+    let calls = Arc::new(AtomicU64::new(0));
+    fastrace::set_reporter(Count(n.clone(), calls.clone()), Config::default().report_interval(Duration::from_millis(interval_ms)));
+    let mut worst = Duration::ZERO;
+    let mut expected = 0u64;
+    let rounds = 20;
+    let deadline = Duration::from_millis(interval_ms * 20 + 500);
+    let mut late = 0;
+    for round in 0..rounds {
+        // a root with a child finished on a thread that exits at once, a local scope, and a
+        // multi-parent span
+        let root = Span::root("r", SpanContext::new(TraceId(1000 + round), SpanId(0)));
+        let child = Span::enter_with_parent("c", &root);
+        std::thread::spawn(move || drop(child)).join().unwrap();
+        {
+            let _g = root.set_local_parent();
+            let _l = LocalSpan::enter_with_local_parent("l");
+        }
+        drop(root);
+        expected += 3;
+        let t0 = Instant::now();
+        while n.load(Ordering::SeqCst) < expected && t0.elapsed() < deadline {
+            std::thread::sleep(Duration::from_micros(200));
+        }
+        if n.load(Ordering::SeqCst) < expected {
+            late += 1;
+            // give up on this round's records
+            expected = n.load(Ordering::SeqCst);
+        }
+        worst = worst.max(t0.elapsed());
+    }
+    // the reporter is invoked every interval even when nothing was collected
+    let c0 = calls.load(Ordering::SeqCst);
+    std::thread::sleep(Duration::from_millis(interval_ms * 10 + 100));
+    let idle_calls = calls.load(Ordering::SeqCst) - c0;
+    println!(
+        "{}",
+        serde_json::json!({"interval_ms": interval_ms, "rounds": rounds, "rounds_not_delivered_in_time": late, "deadline_ms": deadline.as_millis() as u64, "worst_latency_ms": worst.as_secs_f64() * 1000.0, "idle_report_calls_in_10_intervals": idle_calls})
+    );
+    if late > 0 || idle_calls == 0 {
+        1
+    } else {
+        0
+    }
 }
